@@ -1,10 +1,13 @@
 package harness
 
 import (
+	"encoding/json"
 	"fmt"
 	"os"
+	"path/filepath"
 	"runtime"
 	"strconv"
+	"sync"
 	"testing"
 	"time"
 )
@@ -13,10 +16,10 @@ import (
 // VERIF_OUT the directory its case files go to, VERIF_SEED the PRNG seed and
 // VERIF_TIER quick|thorough the volume.
 type labEnv struct {
-	out   string
-	seed  uint64
-	tier  string
-	t     *testing.T
+	out  string
+	seed uint64
+	tier string
+	t    *testing.T
 }
 
 func (e labEnv) thorough() bool { return e.tier == "thorough" }
@@ -60,5 +63,59 @@ func TestLab(t *testing.T) {
 			}
 		}
 	}()
+	// second watchdog, also on the real clock: a lab whose cases stop completing although the process is idle is a run that
+	// does not end (for instance goroutines parked on a lock no clock will ever release).  It records the last case that
+	// did complete - the one after it is the one that hangs - and the goroutine dump, and stops the process.
+	noteProgress("")
+	stall := 120 * time.Second
+	if s := os.Getenv("VERIF_STALL_S"); s != "" {
+		if v, err := strconv.Atoi(s); err == nil && v > 0 {
+			stall = time.Duration(v) * time.Second
+		}
+	}
+	go func() {
+		// cases complete inside synctest bubbles, where time.Now is the bubble's virtual clock: the watchdog therefore only
+		// reads a counter and does all timekeeping itself, out here on the real clock
+		seen, since := -1, time.Now()
+		for {
+			time.Sleep(2 * time.Second)
+			progressMu.Lock()
+			n, last := progressN, progressLast
+			progressMu.Unlock()
+			if n != seen {
+				seen, since = n, time.Now()
+			}
+			idle := time.Since(since)
+			if idle > stall {
+				buf := make([]byte, 1<<20)
+				buf = buf[:runtime.Stack(buf, true)]
+				if len(buf) > 12000 {
+					buf = buf[:12000]
+				}
+				js, _ := json.Marshal(map[string]any{"lab": name, "cases_completed": n, "last_completed_case": last, "idle_seconds": int(idle.Seconds()), "goroutines": string(buf)})
+				_ = os.WriteFile(filepath.Join(out, name+".hang.json"), js, 0o644)
+				fmt.Fprintf(os.Stderr, "harness: lab %s made no progress for %v after %d cases: a run does not end\n", name, idle.Round(time.Second), n)
+				os.Exit(4)
+			}
+		}
+	}()
 	fn(labEnv{out: out, seed: seed, tier: tier, t: t})
+}
+
+var (
+	progressMu   sync.Mutex
+	progressN    int
+	progressLast string
+)
+
+func noteProgress(c string) {
+	progressMu.Lock()
+	progressN++
+	if c != "" {
+		if len(c) > 2000 {
+			c = c[:2000]
+		}
+		progressLast = c
+	}
+	progressMu.Unlock()
 }
